@@ -12,7 +12,7 @@ EXPLANATION = (
     "sequential sites establishes orthogonality of every later witness to C_k and preserves it for earlier "
     "cycles (K4); the sparsest-support swap is a transposition inside rows k..csd-1 and preserves the main-loop "
     "invariant (K6); the shortest-odd-cycle phase of mcb_sva_signed (both branches, K10) calls the search with exactly "
-    "the hidden-edge chain suffix and endpoints its contract K9 requires.  BOUNDED by CBMC (unwinding, csd<=5, thorough 6/7): the "
+    "the hidden-edge chain suffix and endpoints its contract K9 requires.  PROVED(csd<=8, thorough 10; all loops closed by loop contracts with invariants quantified over the cycle-space dimension; the unwound csd<=5 variants remain as bounded fallback): the "
     "COMPOSED main loops of mcb_sva_signed and _mcb_sva_trees - real initialisation, swap, update, output and weight "
     "accumulation, only the search replaced by its contract (an existing cycle that is odd w.r.t. support[k]) - emit exactly "
     "csd cycles whose incidence with the witnesses is unit lower-triangular (<W_j,C_j>=1, <W_j,C_i>=0 for i<j), i.e. "
